@@ -2,7 +2,8 @@
 E5 `fsmodel` as used by C12: the pieces needed to treat "the state of an output directory" as an explicit state.
 
 * `drop_dac_caps()`     - make uid 0 obey file permission bits (drops CAP_DAC_OVERRIDE + CAP_DAC_READ_SEARCH of the
-                          calling process through capget/capset) and prove it on a 0o444 probe file.
+                          calling process through capget/capset, and from the bounding set so that programs it exec's
+                          do not get them back) and prove it on a 0o444 probe file, in-process and through /bin/sh.
 * `snap()` / `key_of()` - canonical snapshot of a tree: relative path -> (sha256 of the bytes | 'dir' | 'link:<to>',
                           st_mode & 0o7777).  Dropped on purpose: mtime/ctime/inode (the property speaks of content and
                           mode only), size (implied by the hash), owner (never changed by an unprivileged run).
@@ -32,6 +33,7 @@ from vf.core import HarnessError
 CAP_DAC_OVERRIDE = 1
 CAP_DAC_READ_SEARCH = 2
 _LINUX_CAPABILITY_VERSION_3 = 0x20080522
+_PR_CAPBSET_DROP = 24
 
 Snapshot = typing.Dict[str, typing.Tuple[str, int]]
 
@@ -60,9 +62,18 @@ def _probe_readonly_is_enforced(probe_dir: pathlib.Path) -> bool:
             return False
         except PermissionError:
             pass
+        # a program exec'd by uid 0 gets its permitted set back from the bounding set: it must be refused as well
+        # (external post-processor programs run as children of the generator)
+        import subprocess
+
+        sub = subprocess.run(["/bin/sh", "-c", 'echo child >> "$0"', str(p)], stderr=subprocess.DEVNULL, check=False)
         with open(p, "r", encoding="utf-8") as f:  # reading what we own must keep working
             if f.read() != "probe":
+                if sub.returncode == 0:
+                    return False
                 raise HarnessError("capability probe file changed although the write was refused")
+        if sub.returncode == 0:
+            raise HarnessError("capability probe: shell reports success on a 0o444 file whose content did not change")
         return True
     finally:
         os.unlink(p)  # needs w+x on the directory only; we own it
@@ -77,6 +88,9 @@ def drop_dac_caps(probe_dir: pathlib.Path) -> None:
         _dropped_in_pid = os.getpid()  # an ordinary user: nothing to drop
         return
     libc = ctypes.CDLL(None, use_errno=True)
+    for cap in (CAP_DAC_OVERRIDE, CAP_DAC_READ_SEARCH):  # bounding set first (needs CAP_SETPCAP, which we still hold)
+        if libc.prctl(_PR_CAPBSET_DROP, cap, 0, 0, 0) != 0:
+            raise HarnessError(f"prctl(PR_CAPBSET_DROP, {cap}) failed: errno {ctypes.get_errno()}")
     hdr = _CapHeader(_LINUX_CAPABILITY_VERSION_3, 0)
     data = (_CapData * 2)()
     if libc.capget(ctypes.byref(hdr), data) != 0:
